@@ -35,6 +35,14 @@ impl MatchGeneratorDriver {
     }
 }
 
+/// Verification hook: the crate-private constructor with arbitrary slice size and window length.
+#[cfg(killingspark_zstd_rs_verif)]
+impl MatchGeneratorDriver {
+    pub fn verif_new(slice_size: usize, max_slices_in_window: usize) -> Self {
+        Self::new(slice_size, max_slices_in_window)
+    }
+}
+
 impl Matcher for MatchGeneratorDriver {
     fn reset(&mut self, _level: CompressionLevel) {
         let vec_pool = &mut self.vec_pool;
